@@ -48,6 +48,11 @@ def aslist (t : DM K) (k : String) : List (DM K) :=
   | some (list l) => l
   | some x => [x]
 
+/-- the keys of a dictionary, in order (`list(term.keys())`; not a dictionary: none). -/
+def keys : DM K → List String
+  | node kv => kv.map Prod.fst
+  | _ => []
+
 /-- a string-valued entry. -/
 def getStr? (t : DM K) (k : String) : Option String :=
   match t.get? k with
@@ -334,6 +339,10 @@ def maxK [LT K] [DecidableLT K] (a b : K) : K := if a < b then b else a
 def zeroSmall [Neg K] [Div K] [OfNat K 0] [LT K] [DecidableLT K] (eps m : K) (l : List K) : List K :=
   l.map (fun v => if eps < absK (v / m) then v else 0)
 
+/-- the `atol` of the near-zero clean-up of the `Box.vects` and `ElasticConstants.Cij` setters and of the symmetry
+    test of the latter (`np.isclose(…, atol=1e-9)`; tied to the source by `Generated/ModelSource.lean`). -/
+def setterAtol : Rat := mkRat 1 1000000000
+
 /-! ### Box -/
 
 def vecArr (v : V3 K) : Arr K := ⟨[3], .flt v.toList⟩
@@ -570,6 +579,35 @@ def systemModelCall [Add K] [Sub K] [Mul K] [Div K] [One K] [IntCast K]
     Option (DM K) :=
   (resolveCall s.atoms.names propName unit propUnit).bind (fun pu => systemModel fac boxUnit pu s)
 
+/-- what the text encoding does to a tree on its way from the writer to the reader: no text (`tree`) and JSON text are
+    the identity, XML text collapses one-element lists (`xmlNorm`); any other format name is refused. -/
+def encode (via : String) (t : DM K) : Option (DM K) :=
+  if via = "tree" ∨ via = "json" then some t else if via = "xml" then some (xmlNorm t) else none
+
+/-- where `dump('system_model', system, f=…)` puts its result: nowhere (`f is None`: the value is returned), into an
+    object with a `write` method, or into the file at a path whose extension `os.path.splitext(f)[1][1:]` is `ext`. -/
+inductive DumpTarget where
+  | returned
+  | handle
+  | path (ext : String)
+
+/-- the `format` variable of `dump` after its defaulting: the argument when given; otherwise nothing when the value is
+    returned, `'json'` for a handle (`os.path.splitext` raises on it), the extension for a path. -/
+def dumpFormatName (format : Option String) (tgt : DumpTarget) : Option String :=
+  match format, tgt with
+  | some f, _ => some f
+  | none, .returned => none
+  | none, .handle => some "json"
+  | none, .path ext => some ext
+
+/-- what `dump` produces: `some "tree"` = the DataModelDict itself, `some "json"` / `some "xml"` = text of that kind
+    (returned or written), `none` = NOTHING (the `if / elif` chain on `format.lower()` has no `else`: `None` is
+    returned, a file is left empty).  The comparison is case-insensitive. -/
+def dumpEncoding (format : Option String) (tgt : DumpTarget) : Option String :=
+  match dumpFormatName format tgt with
+  | none => some "tree"
+  | some f => if f.toLower = "xml" then some "xml" else if f.toLower = "json" then some "json" else none
+
 /-- pad with `None` up to length `n`. -/
 def fillNone {α : Type} (l : List (Option α)) (n : Nat) : List (Option α) :=
   l ++ List.replicate (n - l.length) none
@@ -620,6 +658,22 @@ def systemRead [Add K] [Sub K] [Mul K] [Div K] [Neg K] [One K] [OfNat K 0] [IntC
         | none => none
       | _, _, _, _ => none
     | _, _, _, _ => none
+
+/-- the API level: `system.dump('system_model', format=via, box_unit=…, prop_name=…, unit=…, prop_unit=…)` under the
+    writing configuration `facW`, then `load('system_model', text)` / `System(model=text)` under the reading
+    configuration `facR`.  `none` = some step raises. -/
+def systemDumpLoad [Add K] [Sub K] [Mul K] [Div K] [Neg K] [One K] [OfNat K 0] [IntCast K] [LT K] [DecidableLT K]
+    (facW facR : String → K) (eps : K) (via : String) (boxUnit : Option String) (propName : Option (List String))
+    (unit : Option (List (Option String))) (propUnit : Option (List (String × Option String))) (s : SystemM K) :
+    Option (SystemM K) :=
+  ((systemModelCall facW boxUnit propName unit propUnit s).bind (encode via)).bind (systemRead facR eps)
+
+/-- the same for `Atoms.model(…)` → text → `Atoms(model=text)`. -/
+def atomsDumpLoad [Mul K] [Div K] [One K] [OfNat K 0] [IntCast K]
+    (facW facR : String → K) (via : String) (propName : Option (List String))
+    (unit : Option (List (Option String))) (propUnit : Option (List (String × Option String))) (a : AtomsM K) :
+    Option (AtomsM K) :=
+  ((atomsModelCall facW propName unit propUnit a).bind (encode via)).bind (atomsRead facR)
 
 /-! ### ElasticConstants -/
 
